@@ -3753,20 +3753,22 @@ impl<'source> Parser<'source> {
             },
             'u' => match chars.next() {
                 Some('{') => {
-                    let mut code = 0;
+                    // None once the code has grown beyond the range of a u32
+                    let mut code = Some(0_u32);
 
                     while let Some(c) = chars.peek().cloned() {
                         if c.is_ascii_hexdigit() {
                             chars.next();
-                            code *= 16;
-                            code += c.to_digit(16).unwrap();
+                            code = code
+                                .and_then(|code| code.checked_mul(16))
+                                .and_then(|code| code.checked_add(c.to_digit(16).unwrap()));
                         } else {
                             break;
                         }
                     }
 
                     match chars.next() {
-                        Some('}') => match char::from_u32(code) {
+                        Some('}') => match code.and_then(char::from_u32) {
                             Some(c) => Ok(c),
                             None => self.error(UnicodeEscapeCodeOutOfRange),
                         },
